@@ -83,6 +83,23 @@ def register(M):
     regp('Rc::new', rc_new)
     regp('Box::new', box_new)
 
+    def box_new_uninit(m, a, k):
+        # Box<MaybeUninit<T>> as the `vec![..]` expansion uses it: the code writes the payload through
+        # the raw pointer found at `.0 (Unique) .0 (NonNull)` and then calls box_assume_init_into_vec_unsafe
+        cell = Cell(Adt('MaybeUninit', 0, (UNIT, Adt('ManuallyDrop', 0, (Adt('MaybeDangling', 0, (None,)),)))))
+        return Adt('Box', 0, (Adt('Unique', 0, (Adt('NonNull', 0, (Ref(cell),)),)),))
+    reg('Box', None, 'new_uninit', box_new_uninit)
+
+    def box_into_vec(m, a, k):
+        b = val(m, a[0])
+        ptr = b.fields[0].fields[0].fields[0]
+        arr = load(Ref(ptr.cell, ptr.path + (1, 0, 0)), m.ctx.resolve)
+        if not isinstance(arr, Adt):
+            raise NotEncodable('box_assume_init_into_vec_unsafe on uninitialised box')
+        return Adt('Vec', 0, arr.fields)
+    regp('std::boxed::box_assume_init_into_vec_unsafe', box_into_vec)
+    regp('boxed::box_assume_init_into_vec_unsafe', box_into_vec)
+
     def rc_deref(m, a, k):
         r = innermost_ref(m, a[0])
         return Ref(r.cell, r.path + (0,))
